@@ -158,9 +158,13 @@ class Event:
         return "Event(%s @%s %s)" % (self.kind, self.node, {k: v for k, v in self.__dict__.items() if k not in ("kind", "guard", "node")})
 
 
+NAMED_CONSTS = {}   # last path segment -> literal text (filled from the dump by mirrun)
+
+
 class Executor:
-    def __init__(self, fn, ctx=None, loop_bound=None, models=None, max_nodes=60000):
+    def __init__(self, fn, ctx=None, loop_bound=None, models=None, max_nodes=60000, named_consts=None):
         self.fn = fn
+        self.named_consts = named_consts if named_consts is not None else NAMED_CONSTS
         self.ctx = ctx or Ctx()
         self.loop_bound = loop_bound or (lambda fn, header: 2)
         self.models = models or []
@@ -392,6 +396,10 @@ class Executor:
             text = text[len("no_retag "):]
         if text.startswith("const "):
             c = self.const(text[6:])
+            if c is None:
+                lit = self.named_consts.get(text[6:].strip().split("::")[-1])
+                if lit is not None:
+                    c = self.const(lit)
             if c is not None:
                 return c, None
             return Val(self.ctx.sym("const." + text[6:26], 64), 64), None
@@ -679,7 +687,8 @@ class Executor:
                     self.events.append(Event("havoc", guard, node, place=a["val"].ref, by=callee))
             if dest is not None:
                 self.havoc_place(env, dest, dty)
-                ev.result = env[dest]
+        ev.result = env.get(dest) if dest is not None else None
+        ev.result_discr = env.get("discr(%s)" % dest) if dest is not None else None
 
     def builtin_model(self, env, node, guard, ev, dest, dty):
         callee, args = ev.callee, ev.args
